@@ -3,11 +3,16 @@
 package c07
 
 import (
+	"encoding/json"
 	"fmt"
+	"runtime"
 	"strings"
+	"sync"
+	"sync/atomic"
 	"time"
 
 	"go.uber.org/zap"
+	"go.uber.org/zap/internal/verifhook"
 	"go.uber.org/zap/verif/internal/ev"
 	"go.uber.org/zap/verif/internal/gen"
 	"go.uber.org/zap/verif/internal/jsonv"
@@ -404,9 +409,116 @@ func clip(b []byte) string {
 	return string(b)
 }
 
+
+// ---- concurrent first use of a WithLazy logger ---------------------------------------------------
+
+// evalM emits which evaluation of itself produced the output.
+type evalM struct{ evals *atomic.Int32 }
+
+func (m evalM) MarshalLogObject(enc zapcore.ObjectEncoder) error {
+	n := m.evals.Add(1)
+	runtime.Gosched()
+	enc.AddInt("eval", int(n))
+	return nil
+}
+
+type lockedBuf struct {
+	mu  sync.Mutex
+	buf []byte
+}
+
+func (b *lockedBuf) Write(p []byte) (int, error) {
+	b.mu.Lock()
+	b.buf = append(b.buf, p...)
+	b.mu.Unlock()
+	return len(p), nil
+}
+func (b *lockedBuf) Sync() error { return nil }
+
+// concurrentFirstUse: several goroutines make the first use of one WithLazy logger at the same
+// moment. Its lazy fields are evaluated at first use - once - so every entry logged through
+// that logger (and through children derived from it) must carry the same snapshot.
+func concurrentFirstUse(r *ev.Run) {
+	verifhook.Set(func(name string) {
+		if name == "lazy.init.inside" {
+			time.Sleep(50 * time.Microsecond)
+		}
+	})
+	defer verifhook.Set(nil)
+	n := r.N(400, 12000)
+	for i := 0; i < n; i++ {
+		id := fmt.Sprintf("c07/concurrent-first-use/%d", i)
+		if !r.Want(id) {
+			continue
+		}
+		g := rng.For(r.Seed, "c07/cfu", i)
+		sink := &lockedBuf{}
+		base := zap.New(zapcore.NewCore(zapcore.NewJSONEncoder(zapcore.EncoderConfig{MessageKey: "msg"}), sink, zapcore.DebugLevel))
+		var evals atomic.Int32
+		var lazy *zap.Logger
+		shape := g.Intn(4)
+		switch shape {
+		case 0:
+			lazy = base.WithLazy(zap.Object("lz", evalM{&evals}))
+		case 1:
+			lazy = base.With(zap.Int("pre", 1)).WithLazy(zap.Object("lz", evalM{&evals})).Named("n")
+		case 2:
+			lazy = base.WithLazy(zap.Int("outer", 1)).WithLazy(zap.Object("lz", evalM{&evals}))
+		default:
+			lazy = base.Sugar().WithLazy("lz", evalM{&evals}).Desugar()
+		}
+		ng := g.Range(2, 8)
+		start := make(chan struct{})
+		var wg sync.WaitGroup
+		for gi := 0; gi < ng; gi++ {
+			wg.Add(1)
+			mode := g.Intn(3)
+			go func(gi, mode int) {
+				defer wg.Done()
+				<-start
+				switch mode {
+				case 0:
+					lazy.Info("first use", zap.Int("g", gi))
+				case 1:
+					lazy.With(zap.Int("child", gi)).Info("first use through a child", zap.Int("g", gi))
+				default:
+					if ce := lazy.Check(zapcore.WarnLevel, "first use through Check"); ce != nil {
+						ce.Write(zap.Int("g", gi))
+					}
+				}
+				lazy.Info("second use", zap.Int("g", gi))
+			}(gi, mode)
+		}
+		close(start)
+		wg.Wait()
+		r.Eval(1)
+		r.Count("concurrent_first_use_cases", 1)
+		r.Distinct(fmt.Sprintf("cfu|%d|%d|%d", i, shape, ng))
+		seen := map[int]int{}
+		lines := 0
+		for _, ln := range strings.Split(strings.TrimSpace(string(sink.buf)), "\n") {
+			var d struct {
+				Lz *struct {
+					Eval int `json:"eval"`
+				} `json:"lz"`
+			}
+			if err := json.Unmarshal([]byte(ln), &d); err != nil || d.Lz == nil {
+				r.Violate(ev.Violation{Case: id, Class: "lazy-concurrent-first-use", Msg: fmt.Sprintf("an entry of the WithLazy logger lacks its lazy context: %q", ln)})
+				seen = nil
+				break
+			}
+			seen[d.Lz.Eval]++
+			lines++
+		}
+		if seen != nil && (len(seen) != 1 || seen[1] != lines || lines != 2*ng) {
+			r.Violate(ev.Violation{Case: id, Class: "lazy-concurrent-first-use", Msg: fmt.Sprintf("%d goroutines made the first use of one WithLazy logger (shape %d) at the same time: its lazy field was evaluated %d times and the %d entries carry these evaluation numbers: %v (want every entry to carry the single evaluation made at first use)", ng, shape, evals.Load(), lines, seen), Witness: map[string]any{"goroutines": ng, "shape": shape, "evaluations": evals.Load()}})
+		}
+	}
+}
+
 // Run is the C07 monitor.
 func Run(r *ev.Run) {
-	r.Rule = "case i = f(seed,i): a derivation program (random tree of With/WithLazy/Named/WithOptions(Fields)/Sugar/Desugar and sugared With/WithLazy with 1-20 generated fields incl. namespaces and version-probe marshalers) over tee(JSON,console,observer) under random transparent wrappers; nodes log in random order interleaved with further derivations and every node logs again at the end; each entry's JSON line, console context and observer context are compared with the model of the node's own path (name, ordered fields, evaluation moment of every With/WithLazy segment); distinct = distinct programs; non-trivial = every program (>= 3 nodes)"
+	r.Rule = "case i = f(seed,i): a derivation program (random tree of With/WithLazy/Named/WithOptions(Fields)/Sugar/Desugar and sugared With/WithLazy with 1-20 generated fields incl. namespaces and version-probe marshalers) over tee(JSON,console,observer) under random transparent wrappers; nodes log in random order interleaved with further derivations and every node logs again at the end; each entry's JSON line, console context and observer context are compared with the model of the node's own path (name, ordered fields, evaluation moment of every With/WithLazy segment); plus concurrent first use: 2-8 goroutines make the first use of one WithLazy logger at the same moment (direct, through a With child, through Check) with an injected delay inside the one-time initialisation, and every entry must carry the single evaluation of the lazy fields; distinct = distinct programs; non-trivial = every program (>= 3 nodes)"
 	n := r.N(3000, 40000)
 	for i := 0; i < n; i++ {
 		id := fmt.Sprintf("c07/%d", i)
@@ -416,4 +528,5 @@ func Run(r *ev.Run) {
 		r.Eval(1)
 		runProgram(r, id, i)
 	}
+	concurrentFirstUse(r)
 }
